@@ -18,7 +18,7 @@ func init() {
 		ID:    "C18",
 		Level: "exploration",
 		Rule: "kind A (primitives through hook H4, one message length per step): for every length 0..130 (quick) / 0..1100 (thorough) and 2-8 passphrases a seeded message is encrypted twice (must be equal), decrypted (must round-trip), decrypted under another passphrase (must fail), truncated at every length and extended (must fail), and for ciphertexts <= 96 bytes EVERY single bit is flipped (2000 random flips above; each must fail, never return data); a legacy-format box (nonce || hand-rolled secretbox) of the same message must open to the plaintext. " +
-			"kind B (end to end): kv.Open with V1NodeEncryptor on the instrumented store; keys and values carry 16-byte high-entropy markers; after commit no node/ object may contain a marker; a reader with the right passphrase gets the values back, one with a wrong passphrase or reading a bucket with one flipped bit in a node object gets an error; committing unchanged data again adds no object and never rewrites a name with different bytes (store assertion). " +
+			"kind B (end to end): kv.Open with V1NodeEncryptor on the instrumented store; keys and values carry 16-byte high-entropy markers; after commit no node/ object may contain a marker; a reader with the right passphrase gets the values back, one with a wrong passphrase (an unrelated one and a dozen near misses: trailing line ending, blank, NUL, dropped or added character, letter case) or reading a bucket with one flipped bit in a node object, or with a node object replaced by its own plaintext, gets an error; committing unchanged data again adds no object and never rewrites a name with different bytes (store assertion). " +
 			"non-trivial = every case (each covers a distinct length range / marker set); distinct = hash of (kind, lengths, passphrase)",
 		Flavours: []string{"plain", "race"},
 		FlavourOf: func(tier string, idx int) string {
@@ -220,6 +220,15 @@ func runC18(c *Case) {
 			c.Violate("C18:encryptor:round-trip", fmt.Sprintf("cross decrypt failed: %v", err), nil)
 			return
 		}
+		// passphrases that differ from the right one only slightly are different passphrases
+		for _, np := range c18NearMisses(pass) {
+			other := kv.V1NodeEncryptor(append([]byte{}, np...))
+			c.Count("near_miss_passphrases", 1)
+			if pt, err := other.Decrypt("p", c1); err == nil {
+				c.Violate("C18:encryptor:near-miss-passphrase-accepted", fmt.Sprintf("a box written under %q opens under %q without error (%d bytes)", pass, np, len(pt)), nil)
+				return
+			}
+		}
 		// one instance reading a store that holds both formats, in both orders
 		key := c18Key(string(pass))
 		for _, legacyFirst := range []bool{false, true} {
@@ -251,6 +260,23 @@ func runC18(c *Case) {
 	if c.Index < 3 {
 		c.Res.Sample = map[string]interface{}{"kind": "primitives", "lengths": fmt.Sprintf("%d..%d", from, to), "passphrases": npass}
 	}
+}
+
+// c18NearMisses returns passphrases that differ from p by a trailing line
+// ending, blank, NUL, a dropped or added character, or letter case.
+func c18NearMisses(p []byte) [][]byte {
+	s := string(p)
+	out := []string{s + "\n", s + "\r\n", s + "\r", s + " ", " " + s, s + "\x00", s + "\t", "\n" + s, strings.ToUpper(s), s + s}
+	if len(s) > 0 {
+		out = append(out, s[:len(s)-1], s[1:])
+	}
+	var res [][]byte
+	for _, o := range out {
+		if o != s {
+			res = append(res, []byte(o))
+		}
+	}
+	return res
 }
 
 func c18EndToEnd(c *Case) {
@@ -412,8 +438,8 @@ func c18EndToEnd(c *Case) {
 		}
 	}
 	// wrong passphrase
-	{
-		bad, err := kv.Open(ctx, st.Client("bad").View(true), cfgFor([]byte("wrong")), kv.OpenOptions{ReadOnly: true}, time.Unix(3000, 0))
+	for _, wrong := range append([][]byte{[]byte("wrong")}, c18NearMisses(pass)...) {
+		bad, err := kv.Open(ctx, st.Client("bad").View(true), cfgFor(wrong), kv.OpenOptions{ReadOnly: true}, time.Unix(3000, 0))
 		if err == nil {
 			var got string
 			anyKey := ""
@@ -423,11 +449,49 @@ func c18EndToEnd(c *Case) {
 			}
 			ok, err := bad.Get(ctx, anyKey, &got)
 			if err == nil {
-				c.Violate("C18:e2e:wrong-passphrase-reads", fmt.Sprintf("a reader with a wrong passphrase read %q (found=%v) without error", got, ok), nil)
+				c.Violate("C18:e2e:wrong-passphrase-reads", fmt.Sprintf("a reader with the passphrase %q (written under %q) read %q (found=%v) without error", wrong, pass, got, ok), nil)
 				return
 			}
 		}
 		c.Count("wrong_passphrase_rejected", 1)
+	}
+	// a node object replaced by its own plaintext (which hashes to the node's name): a modification
+	// of a stored object like any other
+	{
+		key := c18Key(string(pass))
+		n := 0
+		for k, b := range snap {
+			if !strings.Contains(k, "/node/") || n >= 4 {
+				continue
+			}
+			pt, err := kv.VerifDecrypt(key, b)
+			if err != nil {
+				continue
+			}
+			n++
+			st3 := newStore()
+			st3.Restore(snap)
+			st3.PutRaw(k, pt)
+			cfg := cfgFor(pass)
+			cfg.Storage = &kv.S3BucketInfo{EndpointURL: fs3.Endpoint(st3.Name, "t"), BucketName: "b", Prefix: "enc"}
+			t, err := kv.Open(ctx, st3.Client("t").View(true), cfg, kv.OpenOptions{ReadOnly: true}, time.Unix(3000, 0))
+			sawErr := err != nil
+			if err == nil {
+				for kk := range want {
+					var got string
+					if _, err := t.Get(ctx, kk, &got); err != nil {
+						sawErr = true
+						break
+					}
+				}
+			}
+			dropStore(st3)
+			c.Count("plaintext_substitutions", 1)
+			if !sawErr {
+				c.Violate("C18:e2e:unencrypted-node-accepted", fmt.Sprintf("with node %s replaced by its plaintext every read succeeded: an object that was not written under the passphrase is accepted", k), nil)
+				return
+			}
+		}
 	}
 	// one flipped bit in one node object
 	{
